@@ -126,7 +126,7 @@ def suite(job):
             mod, name = t.split("::", 1)
             desel += ["--deselect", mod.replace(".", "/") + ".py::" + name]
         env = dict(os.environ, PYTHONPATH=d, PYTHONDONTWRITEBYTECODE="1")
-        cmd = [PY, "-m", "pytest", "-q", "-p", "no:cacheprovider", "--timeout=900", "--no-cov", "-x", "-n", "3"] + desel
+        cmd = [PY, "-m", "pytest", "-q", "-p", "no:cacheprovider", "--timeout=900", "--no-cov", "-x", "-n", "6"] + desel
         r = subprocess.run(cmd, cwd=d, env=env, capture_output=True, text=True)
         tail = r.stdout.strip().splitlines()[-1] if r.stdout.strip() else ""
         ok = r.returncode == 0 and " failed" not in tail and " error" not in tail
@@ -149,7 +149,7 @@ if __name__ == "__main__":
             if not fired:
                 surv.append((rel, key, what, descr))
     print(f"{n} mutants (not E8-equivalent), {n - len(surv)} detected by a check, {len(surv)} not", flush=True)
-    json.dump([(j[0], j[1], j[2], j[3], j[4]) for j in jobs if (j[0], j[1], j[2], j[3]) in set(surv)], open("/tmp/ms_survivors.json", "w"))
+    json.dump([(j[0], j[1], j[2], j[3], j[4]) for j in jobs if (j[0], j[1], j[2], j[3]) in set(surv)], open("/tmp/mutscore_survivors.json", "w"))
     if os.environ.get("MS_SUITE"):
         todo = [j for j in jobs if (j[0], j[1], j[2], j[3]) in set(surv)]
         with ProcessPoolExecutor(int(os.environ.get("MS_SUITE"))) as ex:
